@@ -39,6 +39,15 @@ class _StrAcc:
     def contains(self, pat):
         return Series([pat in v for v in self.s.data], self.s.index, self.s.name)
 
+    def len(self):
+        return Series([len(v) for v in self.s.data], self.s.index, self.s.name)
+
+    def replace(self, a, b):
+        return Series([v.replace(a, b) for v in self.s.data], self.s.index, self.s.name)
+
+    def split(self, sep=None):
+        return Series([v.split(sep) for v in self.s.data], self.s.index, self.s.name)
+
 
 class Series:
     def __init__(self, data, index=None, name=None):
@@ -114,6 +123,9 @@ class Series:
 
     def __add__(self, o):
         return self._bin(o, lambda a, b: a + b)
+
+    def __radd__(self, o):
+        return self._bin(o, lambda a, b: b + a)
 
     def __sub__(self, o):
         return self._bin(o, lambda a, b: a - b)
